@@ -235,6 +235,25 @@ func c18zRun(o *out, input string) {
 	r := httptest.NewRequest("POST", path, bytes.NewReader(body))
 	r.Header.Set("Content-Type", "application/json")
 	r.Header.Set("Content-Encoding", enc)
+	if strings.HasPrefix(f[1], "timeout:") {
+		// a gRPC / gRPC-web call with a grpc-timeout header (malformed ones are refused: no RPC begins,
+		// or the one that began ends)
+		m := "Un"
+		if len(f) > 2 && f[2] == "up" {
+			m = "Up"
+		}
+		_, tv, _ := strings.Cut(f[1], ":")
+		tv, web, _ := strings.Cut(tv, "@")
+		r = httptest.NewRequest("POST", "/verif.c18z.Zsvc/"+m, bytes.NewReader([]byte{0, 0, 0, 0, 0}))
+		if web == "web" {
+			r.Header.Set("Content-Type", "application/grpc-web+proto")
+		} else {
+			r.ProtoMajor, r.ProtoMinor = 2, 0
+			r.Header.Set("Content-Type", "application/grpc")
+			r.Header.Set("Te", "trailers")
+		}
+		r.Header.Set("Grpc-Timeout", tv)
+	}
 	w := httptest.NewRecorder()
 	func() {
 		defer func() {
@@ -251,7 +270,8 @@ func c18zRun(o *out, input string) {
 }
 
 func c18tGen(o *out) {
-	for _, v := range []string{"okgzip", "badgzip", "emptygzip", "truncgzip", "shortgzip", "unknownenc", "herr-eof", "herr-canceled", "herr-plain", "herr-status"} {
+	for _, v := range []string{"okgzip", "badgzip", "emptygzip", "truncgzip", "shortgzip", "unknownenc", "herr-eof", "herr-canceled", "herr-plain", "herr-status",
+		"timeout:5x", "timeout:S", "timeout:-1S", "timeout:123456789S", "timeout:1.5S", "timeout:10S", "timeout:5x@web", "timeout:S@web", "timeout:10S@web"} {
 		for _, sh := range []string{"un", "up"} {
 			o.count("C18Z")
 			c18zRun(o, "C18Z "+v+" "+sh)
